@@ -13,11 +13,17 @@ from .verify import gen_function, obligation_smt2, solve_text
 from . import externals
 
 
-def load_contracts(repo='/repo', extra=()):
+def load_contracts(repo='/repo', extra=(), prog=None):
     cs = []
     for f in sorted(glob.glob(os.path.join(repo, '**', 'zz_verif_contracts*.go'), recursive=True)) + list(extra):
         cs.append(parse_contract_text(open(f).read(), f))
-    return merge_contracts(cs)
+    c = merge_contracts(cs)
+    if prog is not None:
+        for k in list(c['funcs']):
+            a = prog.resolve(k)
+            if a != k:
+                c['funcs'][a] = c['funcs'].pop(k)
+    return c
 
 
 _pool = None
@@ -67,7 +73,7 @@ if __name__ == '__main__':
     prog = Program(irf)
     extra = [a for a in sys.argv[2:] if a.endswith('.go') or a.endswith('.spec')]
     keys = [a for a in sys.argv[2:] if a not in extra]
-    contracts = load_contracts(extra=extra)
-    res = verify_keys(prog, contracts, keys)
+    contracts = load_contracts(extra=extra, prog=prog)
+    res = verify_keys(prog, contracts, [prog.resolve(k) for k in keys])
     bad = [r for r in res if r['verdict'] != 'unsat']
     print('%d obligations, %d not discharged' % (len(res), len(bad)))
